@@ -26,8 +26,8 @@ but is designed to be extended with additional link statistics in the future.
 """
 import struct
 import time
-from threading import Event
 from threading import current_thread
+from threading import Event
 from threading import Thread
 
 import numpy as np
@@ -160,7 +160,9 @@ class Latency:
         self._stop_event.set()
         if self._ping_thread_instance is not None:
             if self._ping_thread_instance is not current_thread():
-                self._ping_thread_instance.join()
+                # Do not wait for ever, the ping thread may be waiting for the
+                # send lock that is held by the thread that reports a link error
+                self._ping_thread_instance.join(timeout=1.0)
             self._ping_thread_instance = None
 
     def _ping_thread(self, interval: float = 0.1) -> None:
